@@ -43,7 +43,7 @@ def run(ctx):
 
 
 def check_graph(ctx):
-    fi = ctx.repo.func(JT, 'JunctionTree._make_graph')
+    fi = ctx.repo.nfunc(JT, 'JunctionTree._make_graph')
     ctx.analysed(fi)
     nodes = [c for c in calls_in(fi.node) if isinstance(c.func, ast.Attribute) and c.func.attr == 'add_nodes_from']
     ok = any(U(c.args[0]) in ('self.domain.attrs', 'self.domain') for c in nodes)
@@ -56,14 +56,14 @@ def check_graph(ctx):
                  U(c.args[0]).replace(' ', '') in ('itertools.combinations(%s,2)' % cl,) for c in calls_in(loops[0])) and \
             not any(isinstance(n, (ast.If, ast.Continue, ast.Break)) for n in ast.walk(loops[0]))
     ctx.ob('graph-from-cliques', fi, loops[0] if loops else fi.node, ok, 'every pair of attributes of every clique is joined by an edge (no filter)')
-    init = ctx.repo.func(JT, 'JunctionTree.__init__')
+    init = ctx.repo.nfunc(JT, 'JunctionTree.__init__')
     st = {U(s.targets[0]): U(s.value) for s in walk_shallow(init.node) if isinstance(s, ast.Assign) and len(s.targets) == 1}
     ok = st.get('self.cliques') in ('[tuple(cl) for cl in cliques]', 'list(map(tuple, cliques))') and st.get('self.graph') == 'self._make_graph()'
     ctx.ob('graph-from-cliques', init, init.node, ok, 'the tree is built from all the cliques it was given', construct='JunctionTree.__init__ stores')
 
 
 def check_cliques(ctx):
-    fi = ctx.repo.func(JT, 'JunctionTree._make_tree')
+    fi = ctx.repo.nfunc(JT, 'JunctionTree._make_tree')
     defs = {}
     for s in walk_shallow(fi.node):
         if isinstance(s, ast.Assign) and len(s.targets) == 1:
@@ -86,7 +86,7 @@ def check_cliques(ctx):
     ok = tri is not None and len(tri[1].value.args) == 1 and U(tri[1].value.args[0]) == 'order'
     ctx.ob('order-modes', fi, tri[1] if tri else fi.node, ok, 'the triangulation eliminates in the chosen order')
     # triangulated graph = model graph + fill-in edges
-    t = ctx.repo.func(JT, 'JunctionTree._triangulated')
+    t = ctx.repo.nfunc(JT, 'JunctionTree._triangulated')
     tdefs = {U(s.targets[0]): s for s in walk_shallow(t.node) if isinstance(s, ast.Assign) and len(s.targets) == 1}
     tri_name = None
     rets = [r for r in walk_shallow(t.node) if isinstance(r, ast.Return)]
@@ -99,7 +99,7 @@ def check_cliques(ctx):
 
 
 def check_modes(ctx):
-    fi = ctx.repo.func(JT, 'JunctionTree._make_tree')
+    fi = ctx.repo.nfunc(JT, 'JunctionTree._make_tree')
     ifs = [s for s in fi.body if isinstance(s, ast.If)]
     ok_none = ok_int = False
     if ifs:
@@ -121,7 +121,7 @@ def check_modes(ctx):
 
 
 def check_schedule(ctx):
-    fi = ctx.repo.func(JT, 'JunctionTree.mp_order')
+    fi = ctx.repo.nfunc(JT, 'JunctionTree.mp_order')
     ctx.analysed(fi)
     defs = {U(s.targets[0]): s for s in walk_shallow(fi.node) if isinstance(s, ast.Assign) and len(s.targets) == 1}
     m = defs.get('messages')
@@ -161,13 +161,13 @@ def check_schedule(ctx):
     ok = bool(rets) and g is not None and nodes and edges and U(rets[-1].value).replace(' ', '') == 'list(nx.topological_sort(%s))' % g
     ctx.ob('schedule', fi, rets[-1] if rets else fi.node, ok,
            'the schedule is a topological order of the dependency graph over ALL messages (isolated messages included)')
-    sep = ctx.repo.func(JT, 'JunctionTree.separator_axes')
+    sep = ctx.repo.nfunc(JT, 'JunctionTree.separator_axes')
     rets = [r for r in walk_shallow(sep.node) if isinstance(r, ast.Return)]
     ok = bool(rets) and U(rets[-1].value).replace(' ', '') in ('{(i,j):tuple(set(i)&set(j))for(i,j)inself.mp_order()}',
                                                                 '{(i,j):tuple(set(i)&set(j))fori,jinself.mp_order()}')
     ctx.ob('separators', sep, rets[-1] if rets else sep.node, ok, 'the separator of message (i,j) is the intersection of cliques i and j')
-    mc = ctx.repo.func(JT, 'JunctionTree.maximal_cliques')
-    nb = ctx.repo.func(JT, 'JunctionTree.neighbors')
+    mc = ctx.repo.nfunc(JT, 'JunctionTree.maximal_cliques')
+    nb = ctx.repo.nfunc(JT, 'JunctionTree.neighbors')
     r1 = [r for r in walk_shallow(mc.node) if isinstance(r, ast.Return)]
     ok = bool(r1) and U(r1[-1].value).replace(' ', '') in ('list(nx.dfs_preorder_nodes(self.tree))', 'list(self.tree.nodes())', 'list(self.tree.nodes)')
     ctx.ob('cliques-of-triangulation', mc, r1[-1] if r1 else mc.node, ok, 'maximal_cliques enumerates exactly the nodes of the tree')
